@@ -58,14 +58,14 @@ M1 = 'M1/M2 (calculus, not mechanised): the trapezium sum over a grid containing
 
 PROPS['C06'] = dict(
     level='other',
-    e1=[UT + 'integrate.integrate', UT + 'interpolate.interp1d_fast', FLT + 'normalize', FLT + 'rebin'],
+    e1=[UT + 'integrate.integrate', UT + 'integrate.integrate_subset', UT + 'interpolate.interp1d_fast', FLT + 'normalize', FLT + 'rebin'],
     e2=('rtc.conv_props', 'run_c06'),
-    assumptions=COMMON + [T_LOOP, M1, 'integrate_subset: its contract (exact piecewise-linear integral between the limits) is ASSUMED at the call site in '
-                          'Filter.rebin and checked on the real function only by the bounded run (exhaustive node/midpoint limits on 2..5-node grids + random)',
+    assumptions=COMMON + [T_LOOP, M1, 'integrate_subset: its BODY is proved to integrate exactly the grid {lo} + every tabulated node strictly inside + {hi} with interpolated end values (any storage order, any limit '
+                          'order); that this trapezium sum is the exact integral used by its callers is M1',
                           'dep: np.searchsorted (side=left partition of a sorted array; sortedness is an obligation)'],
     explanation='E1 proves: integrate = trapezium sum (frame: y untouched); interp1d_fast = the line of every bracketing segment (incl. the x[-1] wrap at the first node); '
                 'normalize divides by |integral|; rebin: response_i = PLI(clipped midpoint edges) with the clip to the filter\'s own [min,max] range for either storage '
-                'order, integrate_subset preconditions at the call site. NOT proved (bounded only): integrate_subset body, sum R_i = integral over the overlap, flat-spectrum '
+                'order, integrate_subset preconditions at the call site. NOT proved (bounded only): sum R_i = integral over the overlap, flat-spectrum '
                 'and linearity corollaries, convolve_model_dir regions. Level "other": kernels proved, composition bounded.')
 
 for _p, _fn, _lvl in (('C12', 'run_c12', 'other'), ('C13', 'run_c13', 'other'), ('C14', 'run_c14', 'other'), ('C15', 'run_c15', 'other'),
@@ -250,9 +250,9 @@ PROPS['C07']['explanation'] = ('E1: _convolve_model_dir_1 (per-file): for the SE
                                'central wavelength, refusal of a parameter table whose names differ. SEDCube.read / get_sed / SED.read as in C12. E2: packages x formats x memmap x mixed grids x permutations.')
 PROPS['C06']['e1'] = PROPS['C06']['e1'] + [CV1, CV2]
 PROPS['C06']['assumptions'] = PROPS['C06']['assumptions'] + [T_EVENT] + A_CONV
-PROPS['C06']['explanation'] = PROPS['C06']['explanation'].replace('NOT proved (bounded only): integrate_subset body, sum R_i = integral over the overlap, flat-spectrum and linearity corollaries, convolve_model_dir regions.',
+PROPS['C06']['explanation'] = PROPS['C06']['explanation'].replace('NOT proved (bounded only): sum R_i = integral over the overlap, flat-spectrum and linearity corollaries, convolve_model_dir regions.',
                                                                   'The convolve loops of both formats are proved to multiply each SED by the filter re-binned to THAT SED\'s frequencies and to add errors in quadrature '
-                                                                  '(see C07). NOT proved (bounded only): integrate_subset body, sum R_i = integral over the overlap, flat-spectrum and linearity corollaries.')
+                                                                  '(see C07). NOT proved (bounded only): sum R_i = integral over the overlap, flat-spectrum and linearity corollaries.')
 PROPS['C08']['explanation'] = ('E2: planted (model, A_V, scale) recovered through convolve_model_dir -> fit -> write_parameters, both formats, 1/3 apertures, permuted tables, mixed wavelength grids. '
                                'Every kernel it composes is proved elsewhere: C06/C07 (convolve loops, rebin), C01 (optimum), C02 (grid minimum), C04 (ranking), C09 (filter_table), C10 (fit loop); '
                                'the end-to-end composition through files and text is bounded.')
@@ -272,3 +272,13 @@ PROPS['C02']['explanation'] = ('E1: Models._read_version_1 and _read_version_2 (
                                'ConvolvedFluxes.interpolate at the radii theta[arcsec] x d[pc] AU times (1 kpc/d)^2, logd = log10(d/kpc), filter wavelengths from the files. ConvolvedFluxes.interpolate '
                                '(C13: linear in aperture, largest beyond, refusal below). Models.fit on the (model, distance, filter) grid: clipped 1-D optimum at every distance, chi^2 = fit + penalties, '
                                'reported chi^2 <= chi^2 at every grid distance, scale = logd of the chosen distance. E2: the same through real packages, both formats, memmap on/off.')
+
+
+# ---- Fitter.__init__ under contract -------------------------------------------------------------
+FINIT = 'sedfitter.fit.Fitter.__init__'
+for _p in ('C01', 'C10'):
+    if FINIT not in PROPS[_p]['e1']:
+        PROPS[_p]['e1'] = PROPS[_p]['e1'] + [FINIT]
+PROPS['C01']['explanation'] += (' Fitter.__init__: the distance pattern handed to Models.fit is -2 for every filter and the extinction pattern is get_av of the model wavelengths '
+                                '(Models.read assumed at that call site; its two readers are under contract in C02).')
+PROPS['C10']['assumptions'] = [x.replace('Fitter.__init__ (Models.read: file I/O) is assumed; ', 'Models.read (dispatch on the package version) and delete_file are assumed at their call sites; ') for x in PROPS['C10']['assumptions']]
